@@ -110,9 +110,10 @@ def originStep (_ : Unit) (line : String) : Unit × String :=
   | ["ex", s, c, p, u] =>
     match parseInt? s, parseInt? c, parseInt? p, parseInt? u with
     | some s, some c, some p, some u =>
-      let o := Origin.extract ⟨s, c, p, u⟩
-      let pr := match o.process with | some (a, b) => s!"{a}:{b}" | none => "none"
-      ((), s!"sig={o.signal} cause={fmtCause o.cause} proc={pr}")
+      let f := fun (o : Origin.Origin) =>
+        let pr := match o.process with | some (a, b) => s!"{a}:{b}" | none => "none"
+        s!"sig={o.signal} cause={fmtCause o.cause} proc={pr}"
+      ((), s!"{f (Origin.extract ⟨s, c, p, u⟩)} | spec {f (Origin.specOrigin ⟨s, c, p, u⟩)}")
     | _, _, _, _ => ((), "bad-op")
   | _ => ((), "bad-op")
 
